@@ -422,13 +422,33 @@ def sess_consts():
     """constants of the heartbeat supervision: the divisor of the 20% allowance (both sites in connection.hpp must agree)
     and the TestReqID literal of heartbeat_service"""
     c = _src('include/fix8/connection.hpp')
-    ds = re.findall(r'_hb_interval20pc\s*[=(]\s*hb_interval\s*\+\s*hb_interval\s*/\s*(\d+)', c)
-    if len(ds) != 2 or len(set(ds)) != 1:
-        raise FactError('expected two agreeing `hb_interval + hb_interval / N` sites in include/fix8/connection.hpp, found %r' % ds)
+    # `_hb_interval20pc = hb_interval + hb_interval / N` in the Connection constructor and in set_hb_interval (parentheses and spacing free);
+    # the sites found must agree (the value itself is also under the correspondence: every harness line prints hb and hb20)
+    ds = re.findall(r'_hb_interval20pc\s*[=({]\s*hb_interval\s*\+\s*\(?\s*hb_interval\s*/\s*(\d+)\s*\)?', c)
+    if not ds or len(set(ds)) != 1:
+        raise FactError('expected agreeing `hb_interval + hb_interval / N` sites in include/fix8/connection.hpp, found %r' % ds)
     s = _src('runtime/session.cpp')
-    m = re.search(r'bool Session::heartbeat_service\(\).*?const f8String testReqID\("([^"\\]*)"\);\s*send\(generate_test_request\(testReqID\)\)', s, re.S)
-    if not m:
+    mf = re.search(r'bool Session::heartbeat_service\(\)(.*?)\n\}\n', s, re.S)
+    lit = None
+    if mf:
+        body = mf.group(1)
+        mv = re.search(r'generate_test_request\(\s*(?:f8String\s*\(\s*)?"([^"\\]*)"', body)
+        if mv:
+            lit = mv.group(1)
+        else:
+            mv = re.search(r'generate_test_request\(\s*(\w+)\s*\)', body)
+            if mv:
+                md = re.search(r'\b%s\s*(?:\(|=|\{)\s*"([^"\\]*)"' % re.escape(mv.group(1)), body) or \
+                    re.search(r'\b%s\s*(?:\(|=|\{)\s*"([^"\\]*)"' % re.escape(mv.group(1)), s)
+                if md:
+                    lit = md.group(1)
+    if lit is None:
         raise FactError('TestReqID literal of Session::heartbeat_service not found in runtime/session.cpp')
+
+    class _M:      # (keeps the emitting code below unchanged)
+        def __init__(self, v): self.v = v
+        def group(self, i): return self.v
+    m = _M(lit)
     _emit('SessConsts', '/-- `_hb_interval20pc = hb_interval + hb_interval / hb20Divisor` (Connection ctor and set_hb_interval) -/\n'
           'def hb20Divisor : Nat := %s\n\n/-- the TestReqID that `heartbeat_service` puts on its TestRequest -/\ndef testReqIdLiteral : String := "%s"\n'
           % (ds[0], m.group(1)))
